@@ -173,6 +173,14 @@ def run(ctx: Ctx, rep: Report) -> None:
                 pb = bind_call_args(n, dataclass_fields(params_cls), skip_self=False)
                 want = {"authoritative_engine_id": roles.get("engine_id"), "authoritative_engine_boots": roles.get("boots"), "authoritative_engine_time": roles.get("time"), "user_name": roles.get("user"), "auth_params": "b''"}
                 g3 = {k: norm(v) for k, v in pb.items()}
+                for k, v in pb.items():
+                    if isinstance(v, (ast.Name, ast.Attribute)) and not (isinstance(v, ast.Name) and (v.id in host.params or v.id in ae.params or ctx.defs(host).all_values(v.id) or ctx.defs(ae).all_values(v.id))):
+                        try:
+                            cval = ctx.r.const(host.module, v)  # a named module constant (NO_AUTH_PARAMS = b"")
+                            if isinstance(cval, (bytes, int, str)):
+                                g3[k] = repr(cval)
+                        except Exception:  # pylint: disable=broad-except
+                            pass
                 privp = g3.get("priv_params")
                 ok = all(g3.get(k) == v for k, v in want.items()) and (privp in ("b''", "salt") or privp in host.params)
                 rep.check(ok, "C10-R2", host.site(n), "USMSecurityParameters(engine id, boots, time, user, empty digest, salt) in RFC 3414 order", f"{g3}", key=f"{ae.key}|params-order")
